@@ -265,6 +265,22 @@ func (r *Result) Scan(input []byte) error {
 	return nil
 }
 
+// Reads a length or offset word. The value must lie in [0, max];
+// anything else (including values that do not fit an int) is rejected
+// so that callers never slice with a negative or overflowing index.
+func word(b []byte, max int) (int, bool) {
+	for _, x := range b[:24] {
+		if x != 0 {
+			return 0, false
+		}
+	}
+	n := bint.Decode(b[24:32])
+	if max < 0 || n > uint64(max) {
+		return 0, false
+	}
+	return int(n), true
+}
+
 func scan(r row, res *Result, input []byte, t atype) error {
 	switch t.kind {
 	case 's':
@@ -275,12 +291,15 @@ func scan(r row, res *Result, input []byte, t atype) error {
 			r[t.pos] = input[:32]
 		}
 	case 'd':
-		length := int(bint.Decode(input[:32]))
+		if len(input) < 32 {
+			return errors.New("EOF")
+		}
+		length, ok := word(input[:32], len(input)-32)
+		if !ok {
+			return errors.New("EOF")
+		}
 		if length == 0 {
 			return nil
-		}
-		if len(input) < 32+length {
-			return errors.New("EOF")
 		}
 		if t.sel {
 			r[t.pos] = input[32 : 32+length]
@@ -294,7 +313,12 @@ func scan(r row, res *Result, input []byte, t atype) error {
 			if len(input) < 32 {
 				return errors.New("EOF")
 			}
-			length, start, pos = int(bint.Decode(input[:32])), 32, 32
+			var ok bool
+			length, ok = word(input[:32], len(input)/32)
+			if !ok {
+				return errors.New("EOF")
+			}
+			start, pos = 32, 32
 		}
 		for i := 0; i < length; i++ {
 			if !t.hasKind('a') {
@@ -314,8 +338,8 @@ func scan(r row, res *Result, input []byte, t atype) error {
 				if len(input) < pos+32 {
 					return errors.New("EOF")
 				}
-				offset := int(bint.Decode(input[pos : pos+32]))
-				if len(input) < start+offset {
+				offset, ok := word(input[pos:pos+32], len(input)-start)
+				if !ok {
 					return errors.New("EOF")
 				}
 				err := scan(r, res, input[start+offset:], *t.elem)
@@ -346,8 +370,8 @@ func scan(r row, res *Result, input []byte, t atype) error {
 				if len(input) < pos+32 {
 					return errors.New("EOF")
 				}
-				offset := int(bint.Decode(input[pos : pos+32]))
-				if len(input) < offset {
+				offset, ok := word(input[pos:pos+32], len(input))
+				if !ok {
 					return errors.New("EOF")
 				}
 				err := scan(r, res, input[offset:], f)
